@@ -33,14 +33,24 @@ type LConv struct {
 	// GuardedDecl: the converter interface itself is declared in a file guarded by
 	// //go:build <tag>; only the types live in the unguarded file.
 	GuardedDecl bool `json:"guarded_decl,omitempty"`
+	// Raw is a goverter:output:raw line.
+	Raw string `json:"raw,omitempty"`
 }
+
+func low(s string) string { return strings.ToLower(s) }
 
 type LSpec struct {
 	Convs []LConv `json:"convs"`
 	// UserPkgs: directory → package name of a pre-existing user package (a doc.go).
 	UserPkgs map[string]string `json:"user_pkgs,omitempty"`
+	// UserPkgUses: directory → identifier the pre-existing user package refers to before it
+	// is generated (bootstrap: the package has type errors until goverter has run).
+	UserPkgUses map[string]string `json:"user_pkg_uses,omitempty"`
 	// PkgNames: directory → package name used by the declaring packages.
 	PkgNames map[string]string `json:"pkg_names"`
+	// PlainPkgs: directories of user packages without any converter that are nevertheless
+	// selected by the patterns.
+	PlainPkgs []string `json:"plain_pkgs,omitempty"`
 	Tag      string            `json:"tag"` // build tag, constraint is !Tag; "" = CLI default (goverter)
 	// TagList, when set, is the full -build-tags value (several tags, the negated one at any
 	// position); the constraint stays !tag().
@@ -203,6 +213,9 @@ func (s *LSpec) Render() map[string]string {
 	for _, gd := range s.guardedDecls {
 		files[gd[0]] = gd[1]
 	}
+	for _, d := range s.PlainPkgs {
+		files[path.Join(d, "plain.go")] = fmt.Sprintf("// Package %s has no converters.\npackage %s\n\n// goverter is mentioned here only in prose.\ntype Plain struct{ N int }\n", normPkgName(d), normPkgName(d))
+	}
 	dirs := make([]string, 0, len(s.UserPkgs))
 	for d := range s.UserPkgs {
 		dirs = append(dirs, d)
@@ -210,6 +223,9 @@ func (s *LSpec) Render() map[string]string {
 	sort.Strings(dirs)
 	for _, d := range dirs {
 		files[path.Join(d, "doc.go")] = fmt.Sprintf("// Package %s is a pre-existing user package.\npackage %s\n\nconst Marker%s = 1\n", s.UserPkgs[d], s.UserPkgs[d], strings.Title(normPkgName(d)))
+		if id, ok := s.UserPkgUses[d]; ok {
+			files[path.Join(d, "doc.go")] += "\n// refers to generated code that does not exist before the first run\nvar _ = &" + id + "{}\n"
+		}
 	}
 	if s.GuardedUser {
 		for i := range s.Convs {
@@ -251,6 +267,9 @@ func (s *LSpec) renderConv(b *strings.Builder, c *LConv) {
 	}
 	if c.Guarded {
 		lines = append(lines, "// goverter:extend Ext"+n)
+	}
+	if c.Raw != "" {
+		lines = append(lines, "// goverter:output:raw "+c.Raw)
 	}
 	if c.Defect == "directive" {
 		lines = append(lines, "// goverter:thisSettingDoesNotExist yes")
@@ -313,6 +332,9 @@ func (s *LSpec) World(name string) *World {
 			}
 		}
 	}
+	for _, d := range s.PlainPkgs {
+		w.Patterns = append(w.Patterns, "./"+d)
+	}
 	sort.Strings(w.Patterns)
 	if s.Tag != "" || s.TagList != "" {
 		w.BuildTags = strp(s.tag())
@@ -360,7 +382,7 @@ func DrawLayout(rng *rand.Rand, nConv int, opts LayoutOpts) *LSpec {
 		if i >= len(letters) {
 			c.Name += fmt.Sprint(i)
 		}
-		c.File = []string{"conv.go", "conv.go", "api.go"}[rng.IntN(3)]
+		c.File = []string{"conv.go", "conv.go", "api.go", "my.conv.go", "Conv_File.go", "x-y.go"}[rng.IntN(6)]
 		if rng.IntN(4) == 0 {
 			c.Kind = "variables"
 		} else {
@@ -385,6 +407,21 @@ func DrawLayout(rng *rand.Rand, nConv int, opts LayoutOpts) *LSpec {
 			}
 		case 8:
 			c.OutFile = "sub/dir/" + strings.ToLower(c.Name) + "_out.go" // no ./ prefix
+		}
+		if c.OutFile != "" && !strings.HasPrefix(c.OutFile, "./same_") && rng.IntN(4) == 0 {
+			// spellings that normalise to the same location
+			low := strings.ToLower(c.Name)
+			switch {
+			case strings.HasPrefix(c.OutFile, "./gen/"):
+				c.OutFile = "./tmpdir/../gen/./" + low + ".go"
+			case strings.HasPrefix(c.OutFile, "@cwd/out-"):
+				c.OutFile = "@cwd/x/../out-" + low + "/./z.go"
+			case strings.HasPrefix(c.OutFile, "sub/dir/"):
+				c.OutFile = "sub//dir/" + low + "_out.go"
+			}
+		}
+		if rng.IntN(6) == 0 {
+			c.Raw = "const Raw" + c.Name + " = \"" + low(c.Name) + "\""
 		}
 		if c.Kind == "variables" && c.OutFile != "" && !strings.HasPrefix(c.OutFile, "./same_") {
 			// a variables block assigns package-level variables of its own package; other
@@ -452,11 +489,20 @@ func DrawLayout(rng *rand.Rand, nConv int, opts LayoutOpts) *LSpec {
 				continue
 			}
 			s.UserPkgs[d] = []string{"weirdname", "existing", normPkgName(d)}[rng.IntN(3)]
+			if c.Format != "function" && c.OutPkg == "" && rng.IntN(3) == 0 {
+				if s.UserPkgUses == nil {
+					s.UserPkgUses = map[string]string{}
+				}
+				s.UserPkgUses[d] = c.implName()
+			}
 		}
 		// re-align shared-file settings (prediction may have changed names only, paths not)
 	}
 	if opts.GuardedUser && rng.IntN(3) == 0 {
 		s.GuardedUser = true
+	}
+	if rng.IntN(4) == 0 {
+		s.PlainPkgs = []string{"plainpkg"}
 	}
 	return s
 }
@@ -485,6 +531,12 @@ func (s *LSpec) Clone() *LSpec {
 	n.UserPkgs = map[string]string{}
 	for k, v := range s.UserPkgs {
 		n.UserPkgs[k] = v
+	}
+	if s.UserPkgUses != nil {
+		n.UserPkgUses = map[string]string{}
+		for k, v := range s.UserPkgUses {
+			n.UserPkgUses[k] = v
+		}
 	}
 	return &n
 }
